@@ -17,6 +17,9 @@ from pathlib import Path
 
 warnings.filterwarnings("ignore")
 sys.path.insert(0, str(Path(__file__).resolve().parent))
+# development aid: run against a scratch worktree of /repo instead of the editable install
+if os.environ.get("ODC_GEO_REPO"):
+    sys.path.insert(0, os.environ["ODC_GEO_REPO"])
 
 from harness.common import Run  # noqa: E402
 
@@ -41,7 +44,18 @@ def main() -> int:
 
     try:
         R.proof_stage()
+    except Exception:  # pylint: disable=broad-except
+        traceback.print_exc()
+        print(f"INFRA-ERROR property={prop}", file=sys.stderr)
+        return 2
+    try:
         mod.run(R)
+    except Exception:  # pylint: disable=broad-except
+        # the real code did something the harness does not expect (or the harness is wrong):
+        # treated like a broken correspondence, never silently as success
+        R.harness_exc = traceback.format_exc()[-3000:]
+        traceback.print_exc()
+    try:
         return R.finish()
     except Exception:  # pylint: disable=broad-except
         traceback.print_exc()
